@@ -221,6 +221,17 @@ func run(args []string) {
 
 func onlyBystander(o c09craft.Outcome) bool {
 	// the bystander identity legitimately adds one local ref
+	// ... and nothing else: every ref that existed before must still point to the same commit (a count
+	// alone would let "bystander added AND the victim's own ref moved" through)
+	after := map[string]bool{}
+	for _, r := range strings.Split(o.LocalAfter, ";") {
+		after[r] = true
+	}
+	for _, r := range strings.Split(o.LocalBefore, ";") {
+		if r != "" && !after[r] {
+			return false
+		}
+	}
 	return o.OtherMerged && countRefs(o.LocalAfter) == countRefs(o.LocalBefore)+1
 }
 
